@@ -407,8 +407,9 @@ pub fn run_mode(kind: &str, behs: &[Beh], progs: &[Vec<Op>], sched: &[usize], fo
     // (threads that can still finish do so within microseconds; a thread left asleep by a lost wake-up never does)
     while !handles.iter().all(|h| h.is_finished()) && t0.elapsed() < Duration::from_millis(400) {
         if !kicked && t0.elapsed() > Duration::from_millis(2) {
+            // (on its own thread: if the subject's locks are deadlocked this publication blocks for good as well)
             let c2 = ctx.clone();
-            let _ = std::panic::catch_unwind(std::panic::AssertUnwindSafe(|| c2.publish(4_000_000_000)));
+            let _ = std::thread::Builder::new().stack_size(192 * 1024).spawn(move || { let _ = std::panic::catch_unwind(std::panic::AssertUnwindSafe(|| c2.publish(4_000_000_000))); });
             kicked = true;
         }
         std::thread::yield_now();
@@ -416,7 +417,8 @@ pub fn run_mode(kind: &str, behs: &[Beh], progs: &[Vec<Op>], sched: &[usize], fo
     for h in handles { if h.is_finished() { let _ = h.join(); } /* else: leaked, blocked for good (pinned tree only) */ }
     install_hook(None);
     *sched_lock() = None;
-    ctx.table.lock().unwrap_or_else(|e| e.into_inner()).clear();
+    // (a thread deadlocked inside a callback may hold the table for good)
+    match ctx.table.try_lock() { Ok(mut t) => t.clear(), Err(std::sync::TryLockError::Poisoned(e)) => e.into_inner().clear(), Err(_) => {} }
     RunResult { outcome, choices, enabled: enabled_log }
 }
 
@@ -552,6 +554,10 @@ pub fn gen(tier: &str, rng: &mut Rng, out: &mut Vec<String>) {
         (vec![n, n], vec![vec![w, p(3)], vec![s(0), p(1)]]),
         (vec![n], vec![vec![wt, s(0)], vec![p(1), p(2)]]),
         (vec![n], vec![vec![s(0), wt], vec![p(1), x(0)]]),
+        // a late subscriber whose callback subscribes again, against a thread that publishes twice (single-shot: the second
+        // publication wants the value lock exclusively while the callback of the late subscriber is running)
+        (vec![c(1), n], vec![vec![s(0)], vec![p(1), p(2)]]),
+        (vec![c(1), n], vec![vec![s(0), s(1)], vec![p(1), p(2)]]),
     ];
     let cap = if thorough { 40_000 } else { 6_000 };
     for kind in ["subject", "single"] {
